@@ -72,12 +72,12 @@ prop("C03", quick={"runs": 1000000}, thorough={"runs": 100000000, "budget_s": 90
      rule="The decision table is enumerated completely: entry state {absent, fresh, stale within MaxStaleness, stale beyond} x failure "
      "cached {no, yes} x SyncUpdate x FailHard x MaxStaleness {0, set} x FailedUpdateTTL {default, -1} x builder {ok, error} x "
      "flavour {Failover/ShardedMap, Failover/SyncMap, FailoverOf/ShardedMapOf, Failover/ShardedMapOf[any], FailoverOf[any]/SyncMap} x 3 clock offsets x SyncRead, "
-     "plus (at the middle offset) a nil cached value on the untyped flavours and a decorating backend that wraps every read error with %w, minus impossible cells (7680 cells); "
+     "plus (at the middle offset) a nil cached value on the untyped flavours and a decorating backend that wraps every read error with %w, minus impossible cells (7680 cells); in 15 % of the stale cells (chosen per seed) the backend reports the expired entry with the bare ErrExpired sentinel, without the item, which makes it as good as absent; "
      "each cell is reached by driving the simulated clock, the builder sleeps 1 s of simulated time so that 'Get returned before/after "
      "the build finished' is observable. Every cell is non-trivial; distinct = distinct (cell, schedule). Thorough repeats all cells "
      "40 times under different schedules, jitter extremes, logger/stats on.",
      rules=["C03.<cell-class>: result and build mode of the lone Get equal the documented table; backend and failure cache content after quiescence"],
-     probes=["background_build", "failed_build"])
+     probes=["background_build", "failed_build", "expired_entry_without_item"])
 prop("C04", quick={"runs": 8000}, thorough={"runs": 100000000, "budget_s": 600},
      rule=FO_RULE + "Callers cancel contexts, let deadlines pass, overwrite or reuse key buffers after Get returned; backend faults "
      "are injected. After quiescence everything is expired and one fault-free Get per key is issued. Non-trivial: overlapping Gets on one key.",
